@@ -44,7 +44,9 @@
     of [OTransfer], and uses [OMove] for coins of this denom that leave ANOTHER marker's account
     by that marker's withdraw routes.  Accounts are assumed to have signed at least one tx
     (canForceTransferFrom is true for them).
-    x/marker/keeper/msg_server.go UpdateParams = [OSetParams] (authority test, then SetParams).
+    x/marker/keeper/msg_server.go UpdateParams = [OSetParams] (authority test, then SetParams);
+    x/marker/keeper/params.go GetMaxSupply = params.MaxSupply (the deprecated uint64
+    params.MaxTotalSupply is carried by the operation and ignored).
     No proofs in this file. *)
 From Coq Require Import ZArith NArith List Bool.
 Import ListNotations.
@@ -223,7 +225,10 @@ Inductive op :=
        (* coins of this denom moved by a route authorised on ANOTHER marker: MsgWithdrawRequest /
           WithdrawEscrow proposal on the marker whose account [from] is (SendCoins under the marker
           bypass: this denom's own marker is not consulted) *)
-| OSetParams (authority : addr) (mx : Z) (gv : bool)                (* MsgUpdateParamsRequest *)
+| OSetParams (authority : addr) (mx : Z) (mts : Z) (gv : bool)
+       (* MsgUpdateParamsRequest: max_supply, the DEPRECATED max_total_supply, enable_governance.
+          SetParams stores [mts]; nothing reads it (GetMaxSupply = params.MaxSupply), so it is
+          not part of the state and no step depends on it. *)
 | OBeginBlock.
 
 (** AddMarkerAccount: the record validates and nothing is registered at the address yet. *)
@@ -430,7 +435,7 @@ Definition step_opt (s : state) (o : op) : option state :=
   | OMove from to amt =>
       guard (0 <? amt) ;;
       move s from to amt
-  | OSetParams authority mx gv =>
+  | OSetParams authority mx _ gv =>
       guard (N.eqb authority GOV) ;;
       Some (set_params s mx gv)
   | OBeginBlock =>
